@@ -17,6 +17,8 @@ Tie lemmas for C08: facts re-extracted from /repo's current source on every run.
    delete-type methods; a created nodeInfo is stored locked; and tryCleanup runs CompareAndDelete BEFORE
    `deleted = true` (the pre-repair order is the shape `Conc.preRepair`, which loses events:
    `Conc.pre_repair_counterexample`),
+ * estimatedPodUsed passes empty PodResourcesOptions (spec only), and the NodeMetric handler's UpdateFunc forwards every
+   update without looking at the old object,
  * Plugin.PreFilter returns the status nil on every path and generateUsageThresholdsFilterProfile is called by Filter only
    (Model/C08Fw.lean).
 -/
@@ -82,5 +84,21 @@ theorem tie_priority_bands :
     classByPriority (C08.PriorityMidValueMax + 1) = 0 ∧ classByPriority (C08.PriorityMidValueMin - 1) = 0 ∧
     classByPriority (C08.PriorityBatchValueMax + 1) = 0 ∧ classByPriority (C08.PriorityBatchValueMin - 1) = 0 ∧
     classByPriority (C08.PriorityFreeValueMax + 1) = 0 ∧ classByPriority (C08.PriorityFreeValueMin - 1) = 0 := by decide
+
+/-- the estimate of a pod reads the pod SPEC only: estimatedPodUsed calls both PodRequests and PodLimits with an empty
+PodResourcesOptions literal (no UseStatusResources: a cached pod is renewed by OnUpdate on spec / condition changes only, so
+an estimate that also read status.containerStatuses[].resources would go stale on a status-only update).  The model's
+PodDesc has no status field; the harness generates container-status resources (equal / larger / smaller / none) and
+status-only updates, and its from-scratch oracle estimates from the spec. -/
+theorem tie_estimate_reads_spec_only :
+    C08.podResourcesCalls = ["PodLimits", "PodRequests"] ∧ C08.podResourcesOptionFields = [] := by decide
+
+/-- the registered NodeMetric handler forwards every Add and every Update to AddOrUpdateNodeMetric whatever the old object
+is (`Ev.metric` of the model = one informer event): UpdateFunc does not read its first parameter, compares nothing and
+calls no other method of the cache.  The report interval is part of the SPEC, so a handler that drops an update whose
+status is unchanged leaves the sums computed with the old interval (`metric_status_filter_counterexample`). -/
+theorem tie_metric_handler_forwards :
+    C08.metricAddCacheCalls = ["AddOrUpdateNodeMetric"] ∧ C08.metricUpdateCacheCalls = ["AddOrUpdateNodeMetric"] ∧
+    C08.metricUpdateOldUsed = false ∧ C08.metricUpdateEqualCalls = 0 := by decide
 
 end KoordVerif.C08
